@@ -1274,11 +1274,31 @@ class RenameSeries(Elemwise):
             return (None,) * (self.frame.npartitions + 1)
 
 
+def _fillna_projection(expr, parent, dependents):
+    # ``value`` given as a dict maps column names to fill values. Once a single
+    # column is selected the dict would be interpreted as index labels -> values,
+    # so the scalar for that column has to be picked when pushing the projection
+    value = expr.operand("value")
+    if isinstance(value, Mapping) and expr.frame.ndim == 2:
+        columns = determine_column_projection(expr, parent, dependents)
+        if not isinstance(columns, list) and columns == parent.operand("columns"):
+            if columns not in expr.frame.columns:
+                return
+            if columns in value:
+                return type(expr)(expr.frame[columns], value[columns])
+            return expr.frame[columns]
+    return plain_column_projection(expr, parent, dependents)
+
+
 class Fillna(Elemwise):
     _projection_passthrough = True
     _parameters = ["frame", "value"]
     _defaults = {"value": None}
     operation = M.fillna
+
+    def _simplify_up(self, parent, dependents):
+        if isinstance(parent, Projection):
+            return _fillna_projection(self, parent, dependents)
 
 
 class Replace(Elemwise):
@@ -3325,6 +3345,10 @@ class FillnaAlign(MaybeAlignPartitions):
     _projection_passthrough = True
     _parameters = ["frame", "value"]
     _expr_cls = Fillna
+
+    def _simplify_up(self, parent, dependents):
+        if isinstance(parent, Projection):
+            return _fillna_projection(self, parent, dependents)
 
 
 class AlignAlignPartitions(MaybeAlignPartitions):
